@@ -736,6 +736,25 @@ impl St {
                 "extend" => okerr(&v.extend(list(a[0])?)),
                 _ => return Err(format!("bad cv mutator {m}")),
             },
+            // enabling an index (again) on a built structure
+            Obj::R9(r) => match m {
+                "select1_hints" => { *r = r.clone().select1_hints(); "ok".into() }
+                "select0_hints" => { *r = r.clone().select0_hints(); "ok".into() }
+                _ => return Err(format!("bad r9 mutator {m}")),
+            },
+            Obj::Da(d) => match m {
+                "enable_rank" => { *d = d.clone().enable_rank(); "ok".into() }
+                "enable_select0" => { *d = d.clone().enable_select0(); "ok".into() }
+                _ => return Err(format!("bad da mutator {m}")),
+            },
+            Obj::Sa(x) => match m {
+                "enable_rank" => { *x = x.clone().enable_rank(); "ok".into() }
+                _ => return Err(format!("bad sa mutator {m}")),
+            },
+            Obj::Ef(e) => match m {
+                "enable_rank" => { *e = e.clone().enable_rank(); "ok".into() }
+                _ => return Err(format!("bad ef mutator {m}")),
+            },
             Obj::Efb(b) => match m {
                 "push" => okerr(&b.push(num(a[0])?)),
                 "extend" => okerr(&b.extend(list(a[0])?)),
